@@ -4,8 +4,8 @@ from .. import vlib
 
 TRUSTED = [
     "Lean 4.33 kernel; axioms per theorem listed under coverage.axioms (subset of propext, Classical.choice, Quot.sound)",
-    "harness/action.cpp (reads Action::AST / ASTNode through their public serializeOp; sends raw token strings with the real strtod value and get_func code) + lib/vlib.py differ; model driver (compiled Lean)",
-    "modelled, not verified: the value strtod returns, get_func (summary keyword categories), fnmatch bracket expressions, SummaryState storage; State::load_rst and dequote have no direct correspondence op",
+    "harness/action.cpp (reads Action::AST / ASTNode through their public serializeOp; sends raw token strings with the get_func code; the real strtod value travels too but is used for nan(chars) only) + lib/vlib.py differ; model driver (compiled Lean)",
+    "modelled, not verified: get_func (summary keyword categories), the payload of nan(chars), [:class:]/[=c=]/[.c.] in fnmatch brackets, SummaryState storage; Model/Strtod.lean (C07's strtod model) is reused for the value of decimal tokens; State::load_rst and dequote have no direct correspondence op",
 ]
 
 
